@@ -121,7 +121,6 @@ package evaluator
 //@   ensures  err == nil ==> ncalls == len(keys) + 1
 //@   assigns  EC
 //@   loop 1 invariant fresh(pairMap) && pairMap != nil && ncalls == rangeindex + 2
-//@   loop 1 invariant forall i int :: {keys[i]} 0 <= i && i < len(keys) ==> has(kwargs, keys[i])
 //@   loop 1 invariant forall k int :: {arg1(k)} {result(k)} 1 <= k && k < ncalls ==> called(k, evaluator.Eval) && arg1(k) == kwargs[keys[k - 1]] && arg2(k) == env && !isT(result(k), *object.PanErr)
 //@   loop 1 step forall h uint64 :: {pairMap[h]} prev(has(pairMap, h)) ==> has(pairMap, h) && pairMap[h] == prev(pairMap[h])
 // the key list: every key of the table, ordered by source position (line, column) - the sort itself is the
